@@ -331,6 +331,10 @@ where
 
 struct NutsTransitions;
 impl Scenario for NutsTransitions {
+    fn recheckable(&self, p: &Value) -> bool {
+        // f32 gradients of the NdArray backend are not repeatable bit for bit (see Scenario::recheckable)
+        ps(p, "float") != "f32"
+    }
     fn name(&self) -> &'static str {
         "nuts_transitions"
     }
@@ -463,6 +467,10 @@ where
 }
 
 impl Scenario for BuildTreeIsolated {
+    fn recheckable(&self, p: &Value) -> bool {
+        // f32 gradients of the NdArray backend are not repeatable bit for bit (see Scenario::recheckable)
+        ps(p, "float") != "f32"
+    }
     fn name(&self) -> &'static str {
         "build_tree_isolated"
     }
